@@ -437,7 +437,9 @@ func c19Wrap(c *Ctx, r *Result) {
 			pos := c.Pos(c.InstrPos(run))
 			// a NewRuntimeError call dominated by err != nil and by failed assertions to the runtime error types
 			ok := false
-			for _, w := range callSites(fn, func(name string, _ ssa.CallInstruction) bool { return strings.HasSuffix(name, "ECALRuntimeProvider.NewRuntimeError") }) {
+			for _, w := range callSites(fn, func(name string, _ ssa.CallInstruction) bool {
+				return strings.HasSuffix(name, "ECALRuntimeProvider.NewRuntimeError")
+			}) {
 				if !dominates(run, w) {
 					continue
 				}
